@@ -11,19 +11,20 @@ import random
 from streamflow.core import utils as sfutils
 from streamflow.core.config import BindingConfig
 from streamflow.core.deployment import DeploymentConfig, FilterConfig, LocalTarget, Target
-from streamflow.core.workflow import Port, Token, Workflow
+from streamflow.core.workflow import Job, Port, Token, Workflow
 from streamflow.cwl import step as cwl_step
 from streamflow.cwl import transformer as cwl_tr
 from streamflow.cwl.combinator import ListMergeCombinator
 from streamflow.cwl.processor import CWLTokenProcessor
 from streamflow.cwl.workflow import CWLWorkflow
+from streamflow.cwl.token import CWLFileToken  # noqa: E402  (after the other cwl modules: import cycle in streamflow.cwl)
 from streamflow.persistence.loading_context import DefaultDatabaseLoadingContext, WorkflowBuilder
 from streamflow.workflow.combinator import (CartesianProductCombinator, DotProductCombinator, LoopCombinator,
                                             LoopTerminationCombinator)
 from streamflow.workflow.port import ConnectorPort, JobPort
 from streamflow.workflow.step import (CombinatorStep, DeployStep, ExecuteStep, GatherStep, LoopCombinatorStep, ScatterStep,
                                       ScheduleStep)
-from streamflow.workflow.token import IterationTerminationToken, ListToken, ObjectToken, TerminationToken
+from streamflow.workflow.token import IterationTerminationToken, JobToken, ListToken, ObjectToken, TerminationToken
 
 from sfv.framework import Ctx, Property
 from sfv.rt.loop import run_controlled
@@ -301,8 +302,18 @@ def gen_token(rng, depth=0):
         return Token(value=rjson(rng), tag=tag, recoverable=rng.random() < 0.5)
     if r < 0.7:
         return ListToken(value=[gen_token(rng, depth + 1) for _ in range(rng.randint(0, 3))], tag=tag)
-    if r < 0.9:
+    if r < 0.84:
         return ObjectToken(value={rs(rng): gen_token(rng, depth + 1) for _ in range(rng.randint(0, 3))}, tag=tag)
+    if r < 0.9:
+        return JobToken(value=Job(name="/" + rs(rng) + "/" + tag, workflow_id=rng.randint(0, 9),
+                                  inputs={rs(rng): gen_token(rng, depth + 1) for _ in range(rng.randint(0, 2))},
+                                  input_directory=rng.choice([None, "/in/" + rs(rng)]), output_directory=rng.choice([None, "/out/" + rs(rng)]),
+                                  tmp_directory=rng.choice([None, "/tmp/" + rs(rng)])), tag=tag, recoverable=rng.random() < 0.5)
+    if r < 0.96:
+        f = {"class": "File", "path": "/d/" + rs(rng), "basename": rs(rng), "size": rng.randint(0, 10**6),
+             "secondaryFiles": [{"class": "File", "path": "/d/" + rs(rng)} for _ in range(rng.randint(0, 2))]}
+        return CWLFileToken(value=f if rng.random() < 0.7 else [f, {"class": "Directory", "path": "/d/" + rs(rng), "listing": []}], tag=tag,
+                            recoverable=rng.random() < 0.5)
     return rng.choice([TerminationToken(), IterationTerminationToken(tag=tag)])
 
 
@@ -414,7 +425,7 @@ class C08(Property):
             "configs/targets/filters, execute, gather, scatter, combinator steps with nested dot/cartesian/loop/loop-termination/"
             "list-merge combinators, and for CWL the transformers, conditional, transfer, injector, loop-output steps with token "
             "processors; random wiring; names/values with unicode, spaces, quotes, JSON scalars) plus 1..4 random nested token values "
-            "(Token/ListToken/ObjectToken/termination tokens) saved into a real in-memory SqliteDatabase; loaded twice through "
+            "(Token, ListToken, ObjectToken, JobToken with a Job and its input tokens, CWLFileToken, termination tokens) saved into a real in-memory SqliteDatabase; loaded twice through "
             "fresh DefaultDatabaseLoadingContexts and compared by a canonical structural dump with the original; every mutable "
             "container and string attribute reachable from load #1 is then overwritten and load #2 and a fresh load are dumped "
             "again; WorkflowBuilder(deep_copy=True) must give the same structure without persistent ids. "
@@ -434,6 +445,7 @@ class C08(Property):
     level_note = ("Lean kernel, axioms within {propext, Classical.choice, Quot.sound}; the entity-level round trip `load (save e) = e` "
                   "is not proved as a theorem (only its key-table obligation and the token part)")
     assumptions = ["entities are built through their constructors with JSON-compatible parameter values"]
+    quick_budget_s = 480          # real time (threads, database): generous under machine load
     min_nontrivial = 15
 
     def explore(self, ctx: Ctx) -> None:
